@@ -4,7 +4,17 @@ from vlib import *
 from l2common import *
 import streams, applyc
 
-THEOREMS = {"C07": ["exit_status_range"],
+THEOREMS = {"C07": ["exit_status_range", "sat64_in64", "string_to_line_number_range", "consume_line_number_range", "s2n_sites",
+                    "parse_unified_range_ok", "normal_count_sites", "parse_normal_range_shape", "parse_normal_range_ok",
+                    "parse_context_range_ok", "unified_counter_sites", "unified_loop_good", "parse_unified_patch_good",
+                    "ctx_append_content_site", "parse_context_patch_good", "parse_normal_patch_ok", "normal_hunk_good",
+                    "parse_normal_patch_good", "parse_patch_body_good", "normal_hunk_counts_le", "good_hunk_counts",
+                    "parse_patch_good", "parse_all_good", "parse_patch_size", "parse_all_size", "split_lines_length",
+                    "strip_loop_rem", "stated_pos_range", "locate_offset_ok", "locate_line_le", "locate_sites_in64",
+                    "write_any_cursor", "apply_one_inv", "step_sites_in64", "apply_rest_inv", "apply_first_inv",
+                    "apply_patch_sites_in64", "apply_patch_sites_but_o2n_in64", "parse_patch_starts", "parse_all_starts",
+                    "parsed_patch_sites_but_o2n_in64", "parsed_patch_sites_in64", "parsed_patch_apply_first_inv",
+                    "parsed_sections_sites_in64", "plain_arith_in_range"],
             "C08": ["sget_line_some", "parse_unified_fueled", "parse_normal_fueled", "parse_context_fueled",
                     "parse_context_hunk_spec", "parse_patch_body_fueled", "parse_quoted_string_fueled",
                     "parse_patch_header_fueled", "body_progress", "header_full_spec", "section_loop_fueled",
